@@ -388,7 +388,20 @@ func c09Histories(c *run.Ctx, s *model.Schema, sdl string) int {
 							// every second history hands ggql ONE variable map that the caller keeps and re-uses for all calls
 							keep := n%2 == 0
 							shared := map[string]interface{}{}
-							for _, cl := range seq {
+							reloadAt := -1
+							if n%4 == 1 {
+								reloadAt = r.Intn(len(seq))
+							}
+							for ci, cl := range seq {
+								if ci == reloadAt {
+									// between two calls the application loads a document that declares @skip / @include itself (as
+									// SDL exported from another server does): accepted or refused, the parsed request kept from
+									// before still means what it meant
+									decl := []string{"directive @skip(if: Boolean!) on FIELD | FRAGMENT_SPREAD | INLINE_FRAGMENT\n", "directive @include(if: Boolean!) on FIELD | FRAGMENT_SPREAD | INLINE_FRAGMENT\n"}
+									lerr := h.Root.ParseString(decl[r.Intn(2)])
+									trace = append(trace, fmt.Sprintf("ParseString(a document declaring a built-in directive) = %v", lerr))
+									c.Count("histories_with_a_redeclaration_of_a_builtin_directive_between_calls", 1)
+								}
 								vars := map[string]interface{}{}
 								if keep {
 									for k := range shared {
